@@ -1,6 +1,6 @@
 From Coq Require Import ZArith List String.
 From Coq.Strings Require Import Byte.
-From DRX Require Import Py.PyBytes Py.Val Py.PyString Model.LingoAst Model.LingoGen Model.LingoOps Model.LingoLoop Model.Lscr.
+From DRX Require Import Py.PyBytes Py.Val Py.PyString Model.LingoAst Model.LingoGen Model.LingoOps Model.LingoLoop Model.Lscr Model.LingoMut.
 Import ListNotations.
 Open Scope string_scope.
 
@@ -20,6 +20,40 @@ Definition run_decompile (v : val) : val :=
       vresult (fun p : regs * script => VL [v_str (generate_lingo_code (snd p)); v_str (generate_js_code (snd p))])
               (parse_lscr d names codec floats r)
     | _, _, _, _ => vbad
+    end
+  | _ => vbad
+  end.
+
+Definition get_ops (v : val) : option (list gop) :=
+  match v with
+  | VB b => Some (map (fun c => if (u8 c =? 76)%Z then GL else GJ) b)
+  | _ => None end.
+Definition v_hist (h : list (gop * string)) : list val :=
+  map (fun p : gop * string => VL [vstr (match fst p with GL => "L" | GJ => "J" end); v_str (snd p)]) h.
+
+(* (fdata, names, codec, floats, [histories]) -> every text of every history, in order *)
+Definition run_decompile_history (v : val) : val :=
+  match v with
+  | VL [VB d; ns; co; fl; VL seqs] =>
+    match getLof get_str ns, get_oracle co, get_oracle fl, all_some (map get_ops seqs) with
+    | Some names, Some codec, Some floats, Some hs =>
+      vresult (fun p : regs * script => VL (flat_map (fun ops => v_hist (run_history (snd p) ops)) hs))
+              (parse_lscr d names codec floats [])
+    | _, _, _, _ => vbad
+    end
+  | _ => vbad
+  end.
+
+(* two chunks decompiled one after the other with the registers carried over: the texts of the second *)
+Definition run_decompile_pair (v : val) : val :=
+  match v with
+  | VL [VL [VB d1; ns1; co1; fl1]; VL [VB d2; ns2; co2; fl2]] =>
+    match getLof get_str ns1, get_oracle co1, get_oracle fl1, getLof get_str ns2, get_oracle co2, get_oracle fl2 with
+    | Some n1, Some c1, Some f1, Some n2, Some c2, Some f2 =>
+      let r1 := match parse_lscr d1 n1 c1 f1 [] with Ok (r, _) => r | _ => [] end in
+      vresult (fun p : regs * script => VL (v_hist (run_history (snd p) [GL]) ++ v_hist (run_history (snd p) [GJ])))
+              (parse_lscr d2 n2 c2 f2 r1)
+    | _, _, _, _, _, _ => vbad
     end
   | _ => vbad
   end.
